@@ -75,6 +75,12 @@ CHECKS["C18"] = ("TLC compares ReportsImpl (the regex-match loop with _reported_
                  "compares get_parameter() after every write() with the contract.",
                  "5 C18", "Trusted: the driver's rendering of abstract tokens into report text; Reports.tla; the fake serial port.")
 
+CHECKS["C09"] = ("TLC enumerates every payload over the token alphabet (line breaks, CR, the configured opener/closer, other "
+                 "delimiters, a G-code-looking word) for every comment style on the template model and checks that what a machine "
+                 "executes (lines cut at CR/LF, comments stripped under the configured style) is unchanged; the same payloads and "
+                 "random unicode go through every text-accepting entry point of the real builder and TLC strips and compares the bytes.",
+                 "5 C09", "Trusted: CommentSafety.tla's reading of how an interpreter removes comments; TLC.")
+
 NOT_YET = {}
 
 
